@@ -412,6 +412,36 @@ def run(ctx):
                         cs["nbL"], s_left)
         h2 = check_call(ctx, cs, 1, cs["R"], cs["L"], cs["maskR"], (-dmax, -dmin), cs["offset"], l1, l2, r2,
                         cs["nbR"], s_right)
+        # ---- the step itself (PandoraMachine.validation_run), every third case, half of them with a filling
+        # method: "the right map is checked against the left one by the same rule" - the pixels the step flags
+        # (bits 8 / 9, or 4 / 5 once filled) in each map are those the two calls above flag
+        if i % 3 == 0:
+            from pandora.state_machine import PandoraMachine
+
+            vcfg = dict(cfg)
+            if i % 6 == 3:
+                vcfg["interpolated_disparity"] = ("mc-cnn", "sgm")[(i // 6) % 2]
+            rp_ = getattr(ctx, "replay_case", None)
+            if rp_ is not None and (rp_.get("validation_run") or {}).get("interpolated_disparity"):
+                vcfg["interpolated_disparity"] = rp_["validation_run"]["interpolated_disparity"]
+            mach = PandoraMachine()
+            mach.left_disparity = make_ds(cs["L"], cs["maskL"], (dmin, dmax), cs["offset"], cs["nbL"])
+            mach.right_disparity = make_ds(cs["R"], cs["maskR"], (-dmax, -dmin), cs["offset"], cs["nbR"])
+            mach.right_disp_map = "cross_checking_accurate"
+            mach.validation_run({"pipeline": {"validation": vcfg}}, "validation")
+            ctx.traces += 1
+            ctx.count("validation_run_steps" + ("_filling" if "interpolated_disparity" in vcfg else ""))
+            for side, got, want in (("left", mach.left_disparity, l1["mask"]), ("right", mach.right_disparity, r2["mask"])):
+                g = (np.asarray(got["validity_mask"].data).astype(np.int64) & 816) != 0
+                w = (np.asarray(want, dtype=np.int64) & 816) != 0
+                if not np.array_equal(g, w):
+                    r_, c_ = [int(x) for x in np.argwhere(g != w)[0]]
+                    ctx.violation("validation_run_" + side + "_not_checked_by_the_rule",
+                                  f"validation_run ({vcfg}): {side} pixel ({r_},{c_}) is "
+                                  f"{'flagged' if g[r_, c_] else 'not flagged'} (mask "
+                                  f"{int(got['validity_mask'].data[r_, c_])}) while the cross-check of the {side} map "
+                                  f"against the other one {'flags' if w[r_, c_] else 'does not flag'} it",
+                                  {"case": case_to_json(cs), "validation_run": vcfg})
         for k, v in list(h1.items()) + list(h2.items()):
             ctx.count(("keep", "mismatch", "occlusion")[k], v)
         nontrivial = len(h1) >= 2 or len(h2) >= 2
